@@ -88,6 +88,19 @@ Theorem C37_match_iff_some_syntactic_expansion_refuted :
 Proof. exact ported_syntactic_expansion_refuted. Qed.
 Print Assumptions C37_match_iff_some_syntactic_expansion_refuted.
 
+(* rendering keeps escapes: for EVERY string parsePatternVariant accepts, the variant string it rebuilds has every square
+   bracket and brace escaped and no dangling backslash (`scan_ok`, written independently of the renderer) - so a rendered
+   variant never contains a character class or a group the user did not write; and hence every variant RenderAllVariants yields *)
+Theorem C37_variants_keep_escapes : forall (s : bytes) (cs : list comp),
+  components s = Some cs -> scan_ok false (variant_string cs) = true.
+Proof. exact variants_keep_escapes. Qed.
+Print Assumptions C37_variants_keep_escapes.
+
+Theorem C37_rendered_keep_escapes : forall (t : node) (rs : list bytes),
+  render_all t = Some rs -> Forall (fun v => scan_ok false v = true) rs.
+Proof. exact rendered_keep_escapes. Qed.
+Print Assumptions C37_rendered_keep_escapes.
+
 (* Compare, for ANY component lists and ANY submatch decomposition: swapping the operands flips the sign *)
 Theorem C37_compare_antisym : forall l1 l2 : list kcomp, compare l2 l1 = CompOpp (compare l1 l2).
 Proof. exact compare_antisym. Qed.
